@@ -52,6 +52,7 @@ fn runs_n(x: &Vector<f64>, y: &Vector<f64>, reps: usize) -> Runs {
 }
 
 pub fn exec(case: &Value, out: &mut Out) {
+    if gets(case, "data") == "over" { return exec_over(case, out); }
     let cid = geti(case, "cid");
     let len = getu(case, "len"); let want = getu(case, "want").max(1);
     let mode = gets(case, "mode"); let float = gets(case, "data") == "float";
@@ -158,6 +159,18 @@ pub fn gen(tier: &str, seed: u64, out: &mut Out) {
             if !quick { push(out, json!({"len": len, "want": want, "mode": "load", "data": "float"})); }
         }
     }
+    // (f) overflowing sums of strictly positive finite data: +inf is the only admissible value (no reassociation of non-negative
+    //     finite terms gives anything else); every worker count, lengths 2..200 around the worker count (all of them in thorough)
+    let shapes = ["all", "first", "middle", "last", "ends", "xy"];
+    for want in 1..=16usize {
+        let mut lens: Vec<usize> = vec![2, 3, 4, want.max(2), want + 1, 2 * want, 2 * want + 1, 4 * want + 3, 17, 64, 200];
+        if quick { for _ in 0..2 { lens.push(rng.gen_range(2..=200)); } } else { lens = (2..=200).collect(); }
+        for (j, len) in lens.into_iter().enumerate() {
+            let ns = if quick { 1 } else if j % 8 == 0 { 6 } else { 2 };
+            for s in 0..ns { push(out, json!({"len": len, "want": want, "mode": "plain", "data": "over", "shape": shapes[(j + want + 3 * s) % 6]})); }
+        }
+        for _ in 0..(if quick { 1 } else { 6 }) { push(out, json!({"len": rng.gen_range(201..=100_000), "want": want, "mode": "plain", "data": "over", "shape": shapes[rng.gen_range(0..6)]})); }
+    }
     // (e) random longer vectors up to 10^5
     for i in 0..(if quick { 32 } else { 320 }) {
         let want = 1 + i % 16; let len = if i % 4 == 0 { rng.gen_range(201..=2000) } else { rng.gen_range(2001..=100_000) };
@@ -166,4 +179,41 @@ pub fn gen(tier: &str, seed: u64, out: &mut Out) {
         if mode == "narrow" { c["want2"] = json!(rng.gen_range(1..=want.max(2) - 1)); }
         push(out, c);
     }
+}
+
+/// Overflowing sums: strictly positive finite data, every single product finite, at least two products of about 1e308, so that the
+/// exact sum (and every reassociation of it) overflows: dot_f64, the aliased call and the sequential dot must all return +inf.
+/// shape: "all" (every product big), "first" / "middle" / "last" (a run of big products in that part only), "ends" (one big product at
+/// each end: for two or more workers every partial sum is finite and only the total overflows), "xy" (x != y: about 1e160 * 1.5e148).
+fn exec_over(case: &Value, out: &mut Out) {
+    let cid = geti(case, "cid"); let len = getu(case, "len").max(2); let want = getu(case, "want").max(1); let shape = gets(case, "shape");
+    let mut rng = rng(geti(case, "seed") as u64, 18);
+    let orig = get_affinity(); let avail = orig.len().min(num_cpus::get()).max(1);
+    let _restore = Restore(orig.clone());
+    let run = (len / 6).max(2).min(len);
+    let big = |k: usize| -> bool { match shape { "first" => k < run, "last" => k >= len - run, "middle" => { let s = (len - run) / 2; k >= s && k < s + run } "ends" => k == 0 || k == len - 1, _ => true } };
+    let (xf, yf): (Vec<f64>, Vec<f64>) = if shape == "xy" {
+        ((0..len).map(|_| 1e160 * rng.gen_range(0.62..1.0)).collect(), (0..len).map(|_| 1.5e148 * rng.gen_range(1.0..1.15)).collect())
+    } else {
+        let x: Vec<f64> = (0..len).map(|k| if big(k) { if rng.gen_bool(0.5) { 1e154 } else { 1.0e154 * rng.gen_range(1.0..1.3) } } else { rng.gen_range(1..=9) as f64 }).collect();
+        (x.clone(), x)
+    };
+    let x = Vector::<f64>::create(xf.clone()); let y = Vector::<f64>::create(yf.clone());
+    let k = want.min(avail); let off = (cid.max(0) as usize) % avail.max(1);
+    let cpus: Vec<usize> = (0..avail).map(|j| orig[(off + j) % avail]).collect();
+    if !set_affinity(&cpus[..k]) { eprintln!("TOOL-ERROR sched_setaffinity failed"); std::process::exit(2) }
+    let nt = num_cpus::get();
+    let r = runs(&x, &y);
+    // what makes +inf the only admissible value, certified on the inputs
+    let prods: Vec<f64> = (0..len).map(|i| xf[i] * yf[i]).collect();
+    let mut e = json!({"op": "pardot_inf", "cid": cid, "mode": "plain", "phase": shape, "len": len, "nt": nt, "want": want, "avail": avail, "panic": r.panic,
+                       "r1": bits(r.r[0]), "r2": bits(r.r[1]), "r3": bits(r.r[2]), "d": bits(r.d),
+                       "allpos": xf.iter().chain(yf.iter()).all(|a| a.is_finite() && *a > 0.0), "prodfinite": prods.iter().all(|p| p.is_finite()),
+                       "nbig": prods.iter().filter(|p| **p >= 9.0e307).count()});
+    if shape != "xy" {
+        // the aliased call on the same object (x = y here): squares of 1e154 are finite, their sum is not
+        let ra = runs_n(&x, &x, 1);
+        e["a1"] = json!(bits(ra.r[0])); e["ad"] = json!(bits(ra.d)); if ra.panic { e["panic"] = json!(true); }
+    }
+    out.ev(e);
 }
